@@ -10,7 +10,7 @@
    functions in suffix-passing style (no index expressions to check); stdlib calls are assumed not to panic; the
    crash- and hang-freedom of the real code is exercised (recover, poisoned capacity, hostile length fields,
    watchdog). *)
-From Verif Require Import Base.Bytes Model.Types Model.GoLite Model.Detect Gen.TreeData
+From Verif Require Import Base.Bytes Model.Types Model.GoLite Model.Detect Gen.TreeData Gen.SigData
   Model.Zip Model.Ole Model.Mkv Model.Tar Model.Checked Proofs.GoLiteP Proofs.SafeP Proofs.CheckedP Gen.FuncTerms Model.Detectors Proofs.TranslateP.
 
 (* the bounds analysis is sound: a term it accepts never indexes or slices outside the header *)
@@ -44,10 +44,18 @@ Proof. exact detect_total. Qed.
 Print Assumptions C01_detect_total.
 
 (* regenerated obligation: the bodies of the loop-free function detectors, translated from the CURRENT source
-   (Gen/FuncTerms.v), equal the hand-written terms up to re-association of && / || ... *)
+   (Gen/FuncTerms.v: straight-line code, loops over literal tables and constant ranges unrolled, switches on constants,
+   masked comparisons, helper functions inlined), equal the hand-written terms up to a normalisation proved to
+   preserve the result and the Panic behaviour (TranslateP.normp_sound) ... *)
 Theorem C01_function_terms_are_the_source : translation_agrees = true.
 Proof. vm_compute. reflexivity. Qed.
 Print Assumptions C01_function_terms_are_the_source.
+
+(* ... and every hand-written term is tied this way: none is left to behavioural correspondence alone ... *)
+Theorem C01_every_hand_term_is_translated :
+  forallb (fun nh => match assoc (fst nh) gen_func_terms with Some _ => true | None => false end) func_terms = true.
+Proof. vm_compute. reflexivity. Qed.
+Print Assumptions C01_every_hand_term_is_translated.
 
 (* ... hence compute the same result, Panic included, on every input ... *)
 Theorem C01_source_terms_equal_hand_terms :
@@ -59,6 +67,22 @@ Print Assumptions C01_source_terms_equal_hand_terms.
 Theorem C01_source_terms_guarded : forallb (fun ng => safe (snd ng)) gen_func_terms = true.
 Proof. vm_compute. reflexivity. Qed.
 Print Assumptions C01_source_terms_guarded.
+
+(* the same for the signatures built by the combinators prefix / offset / ftyp / jpeg2k: the closure body in the current
+   source, instantiated with the literal arguments of each of the registered uses, is the term the model evaluates *)
+Theorem C01_combinator_terms_are_the_source : comb_translation_agrees = true.
+Proof. vm_compute. reflexivity. Qed.
+Print Assumptions C01_combinator_terms_are_the_source.
+
+Theorem C01_combinator_terms_equal_model_terms :
+  forall name d h raw, assoc name sigs = Some d -> comb_hand d = Some h ->
+    exists g, assoc name gen_comb_terms = Some g /\ evalp h raw = evalp g raw.
+Proof. exact (comb_terms_equal C01_combinator_terms_are_the_source). Qed.
+Print Assumptions C01_combinator_terms_equal_model_terms.
+
+Theorem C01_combinator_source_terms_guarded : forallb (fun ng => safe (snd ng)) gen_comb_terms = true.
+Proof. vm_compute. reflexivity. Qed.
+Print Assumptions C01_combinator_source_terms_guarded.
 
 (* the offset-computing detectors: every index / slice expression is in bounds, whatever the length fields say *)
 Theorem C01_offset_detectors_never_panic :
